@@ -261,6 +261,7 @@ def build_library(config):
 TARGETS = {
     "hist": ["targets/hist_run.cpp", "targets/hist_s1.cpp", "targets/hist_s2.cpp",
              "targets/hist_s3.cpp", "targets/hist_s4.cpp"],
+    "fence": ["targets/fence.cpp"],
 }
 
 
